@@ -1,4 +1,5 @@
 import I18n.Model.Cli
+import I18n.Generated.StateSites
 /-!
 # C03 (composition clause) — multi-file output is the concatenation of the single-file outputs
 
@@ -82,5 +83,51 @@ theorem concat_of_single_runs {α : Type} (checkFile : α → List String) (path
 
 /-! Non-vacuity: three files, five workers, completion order 2,0,1 -/
 example : checkAll (fun (s : String) => [s ++ "!"]) ["a", "b", "c"] 5 [2, 0, 1] = ["a!", "b!", "c!"] := by decide
+
+/-! ## Pins on the inventories regenerated from /repo (tools/translate/state2lean.py)
+
+Each pin is decided by evaluation over the generated lists; it talks about KINDS only.  A new `lru_cache` on a function that
+inspects the stack, a module-level set that a check mutates, `', '.join(frozenset)`, a Checker created outside the per-file
+path … regenerate a site of a non-benign kind and the pin stops compiling (`chk.broken` -> falsifier on the real CLI). -/
+section Pins
+open I18n.Spec I18n.Generated.StateSites
+
+/-- every piece of process-global state is of a benign kind (justified kind by kind in `Spec/StateKinds.lean`) -/
+theorem global_state_sites_benign : ∀ s ∈ stateSites, s.kind.benign = true := by decide +kernel
+
+/-- no expression whose order is the hash order of a set reaches an order-sensitive consumer -/
+theorem unordered_iteration_sites_sorted : ∀ s ∈ iterSites, s.verdict.benign = true := by decide +kernel
+
+/-- the data obligation of the `lookupOnly` verdict: dicts built by iterating a set have pairwise distinct keys
+    (so the last-writer-wins rule of dict construction never applies and the build order is invisible) -/
+theorem lookup_tables_have_distinct_keys : ∀ t ∈ lookupKeys, t.2.1 = true ∧ t.2.2.Nodup := by decide +kernel
+
+/-- whatever a function of the per-file path mutates is an object created for that call -/
+theorem per_file_mutations_hit_per_call_objects : ∀ s ∈ mutSites, s.root.perCall = true := by decide +kernel
+
+/-- Checker instances, the ctx namespace and every loop accumulator (`found_unusual_characters`, `msgid_counter`, …) are
+    created inside the per-call path -/
+theorem accumulators_per_call : ∀ s ∈ creationSites, s.perCall = true := by decide +kernel
+
+/-- reads of randomness / clock / stack / environment / directory order are of the classified kinds -/
+theorem nondeterminism_sources_benign : ∀ s ∈ nondetSites, s.kind.benign = true := by decide +kernel
+
+/-! Non-vacuity of the pins: the inventories are populated, and contain the sites the property's anchors name
+(by role / kind, not by identifier) -/
+example : stateSites.length ≥ 100 ∧ iterSites.length ≥ 60 ∧ mutSites.length ≥ 100 := by decide +kernel
+example : (stateSites.filter (fun s => s.kind == .pureCache)).length ≥ 1
+    ∧ (stateSites.filter (fun s => s.kind == .patchAtStartup)).length ≥ 10
+    ∧ (stateSites.filter (fun s => s.kind == .onceInstaller)).length ≥ 1
+    ∧ (stateSites.filter (fun s => s.kind == .importRegistry)).length ≥ 1
+    ∧ (stateSites.filter (fun s => s.kind == .scopedRedirect)).length ≥ 1 := by decide +kernel
+example : (iterSites.filter (fun s => s.verdict == .sorted)).length ≥ 20
+    ∧ (iterSites.filter (fun s => s.verdict == .lookupOnly)).length = lookupKeys.length := by decide +kernel
+example : (creationSites.filter (fun s => s.role == "checker-instance")).length ≥ 1
+    ∧ (creationSites.filter (fun s => s.role == "ctx-namespace")).length ≥ 1
+    ∧ (creationSites.filter (fun s => s.role == "loop-accumulator")).length ≥ 10 := by decide +kernel
+/-- the predicates do reject: the kinds the seeded changes produce are not benign -/
+example : StateKind.impureCache.benign = false ∧ StateKind.perFileMutated.benign = false ∧ OrderVerdict.unsorted.benign = false
+    ∧ MutRoot.sharedParam.perCall = false ∧ MutRoot.classState.perCall = false ∧ NondetKind.other.benign = false := by decide
+end Pins
 
 end I18n.Props.C03
